@@ -802,13 +802,13 @@ func (f *btcsel) genHistory(r *hx.Run, id int) {
 		next++
 		live = append(live, v)
 	}
-	for i, k := 0, 1+r.Rng.Intn(r.Pick(9, 13)); i < k; i++ {
+	for i, k := 0, 1+r.Rng.Intn(r.Pick(9, 11)); i < k; i++ {
 		add()
 	}
 	steps := 2 + r.Rng.Intn(r.Pick(8, 12))
 	okN := 0
 	for s := 0; s < steps; s++ {
-		if r.Rng.Chance(1, 3) && next < r.Pick(13, 17) {
+		if r.Rng.Chance(1, 3) && next < r.Pick(13, 14) {
 			add()
 			continue
 		}
@@ -879,14 +879,14 @@ func (f *btcsel) Gen(r *hx.Run) {
 		r.Do("sel select 11 15 3 0 4251 2 3 4 1 1000000 252,0 3000:s,3000:w,3000:s,3000:s,2000:w,1000:w,1000:w,1000:w")
 		r.Do("sel sorted 3 5 3 58 6702 1 1 4 1 1000000 - 1000:o,1001:o,1002:s,1003:o,1004:w,1005:w,1006:w,1007:o")
 	}
-	nSel := r.Pick(6000, 120000)
+	nSel := r.Pick(6000, 80000)
 	if os.Getenv("HBTC_NOSEL") != "" {
 		nSel = 0
 	}
 	for i := 0; i < nSel; i++ {
 		f.genSel(r, i)
 	}
-	nHist := r.Pick(3000, 60000)
+	nHist := r.Pick(3000, 40000)
 	for i := 0; i < nHist; i++ {
 		f.genHistory(r, i)
 	}
